@@ -62,7 +62,11 @@ def run(rep: core.Report):
     shared_forward.run(rep, "R14j", "phonopy/api_phonopy.py", "Phonopy", 60)
     from rules import shared_freshwrite
 
+    _r14n(rep)
     shared_freshwrite.run(rep, "R14m", ["phonopy/phonon/group_velocity.py", "phonopy/phonon/qpoints.py", "phonopy/phonon/mesh.py", "phonopy/phonon/band_structure.py"], 3)
+    from rules import shared_readonly
+
+    shared_readonly.run(rep, "R14o", ["phonopy/phonon/band_structure.py", "phonopy/phonon/mesh.py", "phonopy/phonon/qpoints.py"], 5)
 
 
 # ---------------------------------------------------------------------------
@@ -802,11 +806,55 @@ def _r14l(rep):
                  f"the q-point list hands the NAC direction to run() only for |q| below {width}, but run(q) without a direction treats every |q| < {tol[0]} as the zone centre and leaves the non-analytical term out: a q-point in between (2e-7 from a text file) loses the LO-TO splitting on this path and keeps it on the OpenMP, band-path and direct routes", line=sites[0].lineno)
 
 
+def _r14n(rep):
+    """Band connection: every per-band quantity is reordered by the same permutation in the same direction."""
+    rep.rule("R14n", "band connection along a path: eigenvalues, eigenvectors and group velocities of a q-point are all reordered by the same use of the band order (all gathered, x[order], or all scattered, x[order] = ...): a gather for one and a scatter for another applies the permutation to one and its inverse to the other, which differ for any cyclic exchange of three or more bands", 3)
+    rel = "phonopy/phonon/band_structure.py"
+    fn = core.find_def(rel, "BandStructure._solve_dm_on_path")
+    orders = set()
+    for st in ast.walk(fn):
+        if isinstance(st, ast.Assign) and isinstance(st.value, ast.Call) and core.src(st.value.func).split(".")[-1] == "estimate_band_connection" and isinstance(st.targets[0], ast.Name):
+            orders.add(st.targets[0].id)
+    if not orders:
+        raise AnalysisError("R14n: BandStructure._solve_dm_on_path no longer takes the band order from estimate_band_connection")
+    changed = True
+    lists = set()
+    while changed:  # lists the order is appended to, loop variables over such lists
+        changed = False
+        for x in ast.walk(fn):
+            if isinstance(x, ast.Call) and isinstance(x.func, ast.Attribute) and x.func.attr == "append" and isinstance(x.func.value, ast.Name) and x.args and isinstance(x.args[0], ast.Name) and x.args[0].id in orders and x.func.value.id not in lists:
+                lists.add(x.func.value.id)
+                changed = True
+            if isinstance(x, ast.For):
+                it = x.iter
+                if isinstance(it, ast.Call) and core.src(it.func) in ("enumerate", "zip"):
+                    pairs = list(zip(x.target.elts[1:] if core.src(it.func) == "enumerate" and isinstance(x.target, ast.Tuple) else (x.target.elts if isinstance(x.target, ast.Tuple) else []), it.args))
+                else:
+                    pairs = [(x.target, it)]
+                for t, a in pairs:
+                    if isinstance(t, ast.Name) and isinstance(a, ast.Name) and a.id in lists and t.id not in orders:
+                        orders.add(t.id)
+                        changed = True
+    uses = []
+    for x in ast.walk(fn):
+        if isinstance(x, ast.Subscript) and any(isinstance(n_, ast.Name) and n_.id in orders for n_ in ast.walk(x.slice)):
+            kind = "scatter" if isinstance(x.ctx, ast.Store) else "gather"
+            uses.append((x, kind))
+    if len(uses) < 3:
+        raise AnalysisError(f"R14n: only {len(uses)} reorderings by the band order found in _solve_dm_on_path (eigenvalues, eigenvectors, group velocities expected)")
+    kinds = [k for _, k in uses]
+    major = max(set(kinds), key=kinds.count)
+    for x, k in uses:
+        rep.instance("R14n", rel, "BandStructure._solve_dm_on_path", f"{core.norm(core.src(x), 60)} : {k}", k == major,
+                     f"'{core.norm(core.src(x), 60)}' is a {k} by the band order while the other per-band quantities are {major}ed: this quantity receives the inverse permutation, so after a cyclic exchange of three or more bands its entries belong to other bands than the frequencies reported next to them", line=x.lineno)
+
+
 def selftest():
     V = []
     b = lambda name, file, old, new, rule, expect="", **kw: V.append(dict(name=name, kind="break", file=file, old=old, new=new, rule=rule, expect=expect, **kw))
     n = lambda name, file, old, new, **kw: V.append(dict(name=name, kind="neutral", file=file, old=old, new=new, **kw))
     BSF = "phonopy/phonon/band_structure.py"
+    b("group velocities scattered by the band order", "phonopy/phonon/band_structure.py", "                    gv_on_path.append(gv[i][band_order])", "                    gv_sorted = np.zeros_like(gv[i])\n                    gv_sorted[band_order] = gv[i]\n                    gv_on_path.append(gv_sorted)", "R14n", "_solve_dm_on_path")
     b("band connection by independent argmax", BSF, "    band_order = [connection_order[x] for x in prev_band_order]", "    connection_order = np.argmax(metric, axis=1)\n    band_order = [int(connection_order[x]) for x in prev_band_order]", "R14h", "estimate_band_connection")
     b("band connection forgets to exclude used bands", BSF, "            if i in connection_order:\n                continue\n", "", "R14h", "estimate_band_connection")
     n("band connection exclusion written as a guard", BSF, "            if i in connection_order:\n                continue\n            if val > maxval:", "            if i not in connection_order and val > maxval:")
